@@ -391,6 +391,8 @@ class BodyView:
             if k == "deref":
                 continue
             if k == "field":
+                if pr.get("adt") in ("alloc::boxed::Box", "core::ptr::unique::Unique", "core::ptr::non_null::NonNull"):
+                    continue   # `**boxed`: the Box's internal pointer fields are not a projection of the content
                 t = mk_field(t, pr.get("name", str(pr["i"])), pr.get("adt"))
             elif k == "downcast":
                 t = T("variant", pr["variant"], (t,))
